@@ -120,3 +120,48 @@ pub fn snapshot_dir(dir: &Path) -> Vec<(String, String)> {
     v.sort();
     v
 }
+
+/// Ways of naming two program files on the command line so that `left` is the first program and
+/// `right` the second one (the role of a program follows from the order of the arguments and, inside
+/// a directory, from the file names). Writes the files below `dir/in<layout>` and returns the path
+/// arguments.
+///   0: `a.lp b.lp`                       the plain case
+///   1: `n.lp b.lp`                       named against the alphabet
+///   2: `d/`                              a directory holding a.lp and b.lp
+///   3: `d/b.lp d/`                       a file and then its directory (the file counts twice)
+///   4: `v2/prog.lp v1/prog.lp`           the same file name in two directories, against the alphabet
+pub const STRONG_LAYOUTS: usize = 5;
+pub fn strong_layout(dir: &Path, left: &str, right: &str, layout: usize) -> Vec<String> {
+    let d = dir.join(format!("in{layout}"));
+    std::fs::create_dir_all(&d).expect("input directory");
+    let s = |p: PathBuf| p.to_string_lossy().to_string();
+    match layout % STRONG_LAYOUTS {
+        0 => {
+            std::fs::write(d.join("a.lp"), left).unwrap();
+            std::fs::write(d.join("b.lp"), right).unwrap();
+            vec![s(d.join("a.lp")), s(d.join("b.lp"))]
+        }
+        1 => {
+            std::fs::write(d.join("n.lp"), left).unwrap();
+            std::fs::write(d.join("b.lp"), right).unwrap();
+            vec![s(d.join("n.lp")), s(d.join("b.lp"))]
+        }
+        2 => {
+            std::fs::write(d.join("a.lp"), left).unwrap();
+            std::fs::write(d.join("b.lp"), right).unwrap();
+            vec![s(d.clone())]
+        }
+        3 => {
+            std::fs::write(d.join("b.lp"), left).unwrap();
+            std::fs::write(d.join("a.lp"), right).unwrap();
+            vec![s(d.join("b.lp")), s(d.clone())]
+        }
+        _ => {
+            std::fs::create_dir_all(d.join("v2")).unwrap();
+            std::fs::create_dir_all(d.join("v1")).unwrap();
+            std::fs::write(d.join("v2").join("prog.lp"), left).unwrap();
+            std::fs::write(d.join("v1").join("prog.lp"), right).unwrap();
+            vec![s(d.join("v2").join("prog.lp")), s(d.join("v1").join("prog.lp"))]
+        }
+    }
+}
